@@ -765,6 +765,68 @@ func freeCase(o *out, idx int, r *rand.Rand, thorough bool) {
 	}
 }
 
+// stopRaceCase: the source keeps emitting while Stop() executes.  Between
+// close(m.quit) and the handler's exit every push is a coin toss per client
+// (notifySubscriber selects between the queue and m.quit), which the model's
+// atomic stop does not cover; run only on request (SUBS_STOPRACE=<cases>), its
+// oracle failures carry the shape suffix "-during-stop".
+func stopRaceCase(o *out, idx int, r *rand.Rand) {
+	o.line("case %d stoprace", idx)
+	w := newWorld(o, 0, false)
+	nsubs := 1 + r.Intn(3)
+	for i := 0; i < nsubs; i++ {
+		s := w.subscribe(0, false)
+		if s.s == nil {
+			return
+		}
+		s.role, s.done = "racefast", make(chan struct{})
+		o.op(fmt.Sprintf("role %d racefast", s.id), "-")
+		go s.consume(w, r.Intn(3) == 0, rand.New(rand.NewSource(r.Int63())))
+	}
+	evs := make([]ev, 400)
+	for i := range evs {
+		evs[i] = w.fresh(true, uint32(i+1))
+	}
+	var sent []ev
+	quit, done := make(chan struct{}), make(chan struct{})
+	go func() {
+		defer close(done)
+		for _, e := range evs {
+			select {
+			case w.src.ch <- e.ntfn():
+				sent = append(sent, e)
+			case <-quit:
+				return
+			}
+		}
+	}()
+	time.Sleep(time.Duration(r.Intn(200)) * time.Microsecond)
+	g := guard(w.m.Stop)
+	close(quit)
+	<-done
+	for _, e := range sent {
+		o.op("emit "+e.String(), "ok")
+	}
+	if g == "" {
+		g = "ok"
+	}
+	o.op("stop", g)
+	o.hit("stoprace")
+	for _, s := range w.liveSubs() {
+		select {
+		case <-s.done:
+		case <-time.After(opTimeout):
+		}
+		s.mu.Lock()
+		tail := "open"
+		if s.sawEnd {
+			tail = "closed"
+		}
+		o.op(fmt.Sprintf("recv %d", s.id), "["+strings.Join(s.got, " ")+"] "+tail)
+		s.mu.Unlock()
+	}
+}
+
 // ---------------------------------------------------------------------------
 // child: runs cases [SUBS_FROM, SUBS_TO), writing unbuffered to SUBS_OUT
 
@@ -782,7 +844,9 @@ func child(_ *tr.W, thorough bool) {
 	o := &out{f: f}
 	for idx := from; idx < to; idx++ {
 		r := caseRng(idx)
-		if idx%3 == 2 {
+		if idx >= tr.EnvInt("SUBS_N", 1<<30) {
+			stopRaceCase(o, idx, r)
+		} else if idx%3 == 2 {
 			freeCase(o, idx, r, thorough)
 		} else {
 			detCase(o, idx, r, thorough)
@@ -803,6 +867,8 @@ func parent(t *tr.W, thorough bool) {
 	if thorough {
 		n *= 8
 	}
+	regular := n
+	n += tr.EnvInt("SUBS_STOPRACE", 0)
 	dir, err := os.MkdirTemp("", "subsdrv")
 	if err != nil {
 		panic(err)
@@ -812,7 +878,7 @@ func parent(t *tr.W, thorough bool) {
 	for from := 0; from < n; {
 		outPath := fmt.Sprintf("%s/child-%d.trace", dir, from)
 		cmd := exec.Command(os.Args[0], "subschild", outPath+".unused")
-		cmd.Env = append(os.Environ(), "SUBS_FROM="+strconv.Itoa(from), "SUBS_TO="+strconv.Itoa(n), "SUBS_OUT="+outPath)
+		cmd.Env = append(os.Environ(), "SUBS_FROM="+strconv.Itoa(from), "SUBS_TO="+strconv.Itoa(n), "SUBS_OUT="+outPath, "SUBS_N="+strconv.Itoa(regular))
 		var stderr bytes.Buffer
 		cmd.Stderr = &stderr
 		cmd.Stdout = &stderr
